@@ -38,3 +38,11 @@ META["C16"] = {
     "note": "Trusts proto.Equal and the harness walker; pairs where only one side has change_time are not asserted; DurationValueWithinP only reflexive/symmetric; an updates-only subscriber's first write equivalent to the current value is unspecified; one known finding (Collection compares with the previous stored value instead of the held one) is tolerated by exact signature.",
     "technique": "rapid property-based testing: differential vs proto.Equal + independent arithmetic oracle + model-based delivery check",
 }
+META["C17"] = {
+    "text": ("Bounded-exhaustive enumeration of every (member count 0..4, success/failure vector, completion order, strategy, Execute-or-direct) combination with the completion order owned "
+             "by the harness (members gated on channels; the next is released only after the previous member's goroutine has exited), plus rapid-generated groups of up to 8 members with "
+             "cancellation-aware members. The oracle evaluates the documented strategy contract on (outcomes, order) and checks verdict, first-observed error, result indexes, "
+             "ExecuteOne's run-nothing-after-success, cancellation exactly once the outcome is decided, no panic and no pkg/group goroutine left behind."),
+    "note": "Goroutine exit is observed through runtime.Stack; a member's context is sampled when the member is released (a wrongly early cancel that has not yet been executed at that instant can be missed, never falsely reported).",
+    "technique": "bounded-exhaustive enumeration with harness-owned completion order + rapid property-based testing against the strategy contract",
+}
